@@ -6,7 +6,7 @@ from . import build
 NPROC = 16
 
 def _run(cmd, text):
-    p = subprocess.run(cmd, input=text, stdout=subprocess.PIPE, stderr=subprocess.PIPE, text=True, env=build.ENV)
+    p = subprocess.run(cmd, input=text, stdout=subprocess.PIPE, stderr=subprocess.PIPE, text=True, env=build.ENV, timeout=900)
     return p.returncode, p.stdout, p.stderr
 
 def _shard(items, n):
